@@ -45,11 +45,23 @@ def okFor (owner : String) (types : List String) (hand : List (String × String)
 
 def loopQueues : List (String × String) := [("pfcp.PfcpServer", "srCh"), ("pfcp.PfcpServer", "trToCh")]
 
-/-- (sender root, channel, receiver root) for every bounded channel a root sends on and a different root receives from -/
+def isSend (k : String) : Bool := k == "send" || k == "selsend"
+def isRecv (k : String) : Bool := k == "recv" || k == "selrecv"
+
+/-- the function a root starts in: its own receive points (the loop's select, `range evtCh`, a ticker's select) are where
+    it waits for WORK, not where it is blocked inside a turn -/
+def ownBody (a : Access) : Bool := a.fn == a.root
+
+/-- waits-for edges (waiting root, channel, root it waits for):
+    a send on a bounded channel that a different root receives from; and a receive NESTED inside a turn (not the root's
+    own receive point) on a channel that a different root sends on or closes -/
 def blockingEdges : List (String × String × String) :=
-  (accesses.filter (·.kind == "send")).flatMap fun s =>
-    ((accesses.filter fun r => r.kind == "recv" && r.typ == s.typ && r.field == s.field && r.root != s.root).map
-      fun r => (s.root, s.typ ++ "." ++ s.field, r.root)).eraseDups
+  ((accesses.filter (fun a => isSend a.kind)).flatMap fun s =>
+    ((accesses.filter fun r => isRecv r.kind && r.typ == s.typ && r.field == s.field && r.root != s.root).map
+      fun r => (s.root, s.typ ++ "." ++ s.field, r.root)).eraseDups) ++
+  ((accesses.filter (fun a => isRecv a.kind && !ownBody a)).flatMap fun r =>
+    ((accesses.filter fun s => (isSend s.kind || s.kind == "close") && s.typ == r.typ && s.field == r.field && s.root != r.root).map
+      fun s => (r.root, r.typ ++ "." ++ r.field, s.root)).eraseDups)
 
 def edgeSet : List (String × String × String) := blockingEdges.eraseDups
 
